@@ -82,12 +82,12 @@ theorem ginv_init (c : GCfg) (d : Rat) (h : d ≠ 0) : GInv c (GState.init d) :=
   ⟨h, Or.inl ⟨rfl, rfl⟩⟩
 
 theorem admit_cases (c : GCfg) (s : GState) (t ton : Rat) :
-    (ton ≤ 0 ∧ admit c s t ton = (s, .valueError)) ∨
-    (0 < ton ∧ isOpen c s t = false ∧ admit c s t ton = (s, .rejected)) ∨
-    (0 < ton ∧ isOpen c s t = true ∧ s.delta = 0 ∧ admit c s t ton = ({ s with tpg := some t }, .zeroDiv)) ∨
+    (ton ≤ 0 ∧ admitPkt c s t ton = (s, .valueError)) ∨
+    (0 < ton ∧ isOpen c s t = false ∧ admitPkt c s t ton = (s, .rejected)) ∨
+    (0 < ton ∧ isOpen c s t = true ∧ s.delta = 0 ∧ admitPkt c s t ton = ({ s with tpg := some t }, .zeroDiv)) ∨
     (0 < ton ∧ isOpen c s t = true ∧ s.delta ≠ 0 ∧
-      admit c s t ton = ({ s with tpg := some t, tgo := some (t + clampI c (ton / s.delta)) }, .admitted)) := by
-  unfold admit
+      admitPkt c s t ton = ({ s with tpg := some t, tgo := some (t + clampI c (ton / s.delta)) }, .admitted)) := by
+  unfold admitPkt
   by_cases h1 : ton ≤ 0
   · left; simp [h1]
   · have h1' : 0 < ton := not_le.mp h1
@@ -122,7 +122,7 @@ theorem upd_cases (c : GCfg) (s : GState) (t d : Rat) :
           exact ⟨h1', a, b, rfl, rfl, h2', by simp [h1, h2']⟩
 
 theorem ginv_admit (c : GCfg) (s : GState) (t ton : Rat) (hc : c.minI ≤ c.maxI) (h : GInv c s) :
-    GInv c (admit c s t ton).1 := by
+    GInv c (admitPkt c s t ton).1 := by
   rcases admit_cases c s t ton with ⟨_, e⟩ | ⟨_, _, e⟩ | ⟨_, _, h0, _⟩ | ⟨_, _, _, e⟩
   · rw [e]; exact h
   · rw [e]; exact h
@@ -146,7 +146,7 @@ theorem upd_tpg (c : GCfg) (s : GState) (t d : Rat) : (updDelta c s t d).1.tpg =
 
 theorem ginv_step (c : GCfg) (s : GState) (op : GOp) (hc : c.minI ≤ c.maxI) (h : GInv c s) : GInv c (gStep c s op) := by
   cases op with
-  | admit t ton => exact ginv_admit c s t ton hc h
+  | admitPkt t ton => exact ginv_admit c s t ton hc h
   | upd t d => exact ginv_upd c s t d hc h
   | query t => exact h
 
@@ -181,7 +181,7 @@ theorem spaced_run (c : GCfg) (hc : c.minI ≤ c.maxI) : ∀ (ops : List GOp) (s
       have := ih _ (ginv_upd c s t d hc h)
       rw [upd_tpg] at this
       exact this
-    | admit t ton =>
+    | admitPkt t ton =>
       have hi := ginv_admit c s t ton hc h
       have ih' := ih _ hi
       rcases admit_cases c s t ton with ⟨_, e⟩ | ⟨_, _, e⟩ | ⟨_, _, h0, _⟩ | ⟨_, ho, _, e⟩
@@ -211,7 +211,7 @@ theorem tpg_last (c : GCfg) (hc : c.minI ≤ c.maxI) : ∀ (ops : List GOp) (s :
       have := ih _ (ginv_upd c s t d hc h)
       rw [upd_tpg] at this
       exact this
-    | admit t ton =>
+    | admitPkt t ton =>
       have ih' := ih _ (ginv_admit c s t ton hc h)
       rcases admit_cases c s t ton with ⟨_, e⟩ | ⟨_, _, e⟩ | ⟨_, _, h0, _⟩ | ⟨_, _, _, e⟩
       · simp only [gRun, List.foldl, gStep, admissions, e] at ih' ⊢; simpa using ih'
